@@ -101,6 +101,35 @@ Proof.
         -- intros x Hx. apply in_app_or in Hx. destruct Hx as [Hx|[<-|[]]]; [left; exact Hx|right; reflexivity].
 Qed.
 
+Definition key_ok (k : list N) : Prop := k = [] \/ rel_ok k.
+
+Lemma pjoin_key k n : key_ok k -> ~ In sl n -> pjoin k n = match k with [] => n | _ => k ++ sl :: n end.
+Proof.
+  intros [->|Hk] Hn.
+  - unfold pjoin. destruct n as [|x r]; [reflexivity|].
+    assert (x =? sl = false) as -> by (apply N.eqb_neq; intros ->; apply Hn; left; reflexivity). reflexivity.
+  - rewrite (pjoin_noslash k n Hk Hn). destruct k; [destruct Hk; congruence|reflexivity].
+Qed.
+
+Lemma last_component r1 n1 r2 n2 : ~ In sl n1 -> ~ In sl n2 -> r1 ++ sl :: n1 = r2 ++ sl :: n2 -> r1 = r2 /\ n1 = n2.
+Proof.
+  intros H1 H2 E. apply (f_equal (@rev N)) in E. rewrite !rev_app_distr in E. cbn [rev] in E. rewrite <- !app_assoc in E. cbn [app] in E.
+  destruct (first_component (rev n1) (rev n2) (rev r1) (rev r2)) as [E1 E2]; [intros H; apply H1; apply in_rev; exact H|intros H; apply H2; apply in_rev; exact H|exact E|].
+  apply (f_equal (@rev N)) in E1, E2. rewrite !rev_involutive in E1, E2. split; assumption.
+Qed.
+
+Lemma pjoin_key_inj k1 n1 k2 n2 : key_ok k1 -> key_ok k2 -> ~ In sl n1 -> ~ In sl n2 ->
+  pjoin k1 n1 = pjoin k2 n2 -> k1 = k2 /\ n1 = n2.
+Proof.
+  intros K1 K2 H1 H2. rewrite (pjoin_key k1 n1 K1 H1), (pjoin_key k2 n2 K2 H2).
+  destruct k1 as [|a1 k1], k2 as [|a2 k2].
+  - intros ->. split; reflexivity.
+  - intros ->. exfalso. apply H1. apply in_or_app. right. left. reflexivity.
+  - intros <-. exfalso. apply H2. apply in_or_app. right. left. reflexivity.
+  - intros E. apply last_component; assumption.
+Qed.
+
+
 (* ---- one directory ------------------------------------------------------------------------------------------------ *)
 Section Once.
   Variable L : hashlib.
@@ -136,10 +165,10 @@ Section Once.
   Qed.
 
   Definition visited_path (ed' : edict) (p : list N) : Prop :=
-    exists r n, p = r ++ sl :: n /\ ~ In sl n /\ ~ In r (map fst ed').
+    exists r n, key_ok r /\ p = pjoin r n /\ ~ In sl n /\ ~ In r (map fst ed').
   Lemma visited_path_shrink ed1 ed2 p : (forall x, In x ed2 -> In x ed1) -> visited_path ed1 p -> visited_path ed2 p.
   Proof.
-    intros Hs [r [n [E [Hn Hk]]]]. exists r, n. split; [exact E|split; [exact Hn|]]. intros Hin. apply Hk.
+    intros Hs [r [n [Kr [E [Hn Hk]]]]]. exists r, n. split; [exact Kr|split; [exact E|split; [exact Hn|]]]. intros Hin. apply Hk.
     apply in_map_iff in Hin. destruct Hin as [[k dd] [Ek Hin]]. cbn in Ek. subst k. apply in_map_iff. exists (r, dd). split; [reflexivity|apply Hs; exact Hin].
   Qed.
 
@@ -168,21 +197,41 @@ Section Once.
         * intros p [<-|Hp]; [left; reflexivity|right; apply N2; exact Hp].
   Qed.
 
-  Lemma map_pjoin_nodup rel (its : list item) : rel_ok rel -> (forall it, In it its -> ~ In sl (fst it)) ->
+  (* what os.path.join puts in front of a slash-free name *)
+  Definition prefix (rel : list N) : list N := match rel with [] => [] | _ => rel ++ [sl] end.
+  Lemma pjoin_prefix rel n : key_ok rel -> ~ In sl n -> pjoin rel n = prefix rel ++ n.
+  Proof.
+    intros Hk Hn. rewrite (pjoin_key rel n Hk Hn). unfold prefix. destruct rel; [reflexivity|]. rewrite <- app_assoc. reflexivity.
+  Qed.
+  Lemma valid_rel_ok d : valid_name d -> rel_ok d.
+  Proof.
+    intros Hd. destruct (valid_name_last d Hd) as [Y [x [-> Hx]]]. split; [destruct Y; discriminate|].
+    rewrite endswith_snoc. apply N.eqb_neq. exact Hx.
+  Qed.
+  Lemma key_ok_child rel d : key_ok rel -> valid_name d -> rel_ok (pjoin rel d).
+  Proof.
+    intros [->|Hr] Hd; [|apply rel_ok_child; assumption].
+    rewrite (pjoin_key [] d (or_introl eq_refl) (proj2 Hd)). apply valid_rel_ok. exact Hd.
+  Qed.
+
+  Lemma map_pjoin_nodup rel (its : list item) : key_ok rel -> (forall it, In it its -> ~ In sl (fst it)) ->
     NoDup (map fst its) -> NoDup (map (fun it : item => pjoin rel (fst it)) its).
   Proof.
     intros Hr. induction its as [|it its IH]; intros Hs Hn; [constructor|]. cbn [map] in *. inversion Hn as [|? ? Hx Hrest]; subst.
     constructor; [|apply IH; [intros i Hi; apply Hs; right; exact Hi|exact Hrest]].
     intros Hin. apply in_map_iff in Hin. destruct Hin as [it' [E Hin']]. apply Hx.
-    rewrite (pjoin_noslash rel (fst it') Hr (Hs it' (or_intror Hin'))), (pjoin_noslash rel (fst it) Hr (Hs it (or_introl eq_refl))) in E.
-    apply app_inv_head in E. injection E as E'. cbn [fst]. rewrite <- E'. apply (in_map fst its it' Hin').
+    rewrite (pjoin_prefix rel (fst it') Hr (Hs it' (or_intror Hin'))), (pjoin_prefix rel (fst it) Hr (Hs it (or_introl eq_refl))) in E.
+    apply app_inv_head in E. rewrite <- E. apply (in_map fst its it' Hin').
   Qed.
 
   (* ---- the walk --------------------------------------------------------------------------------------------------- *)
+  (* [below rel p]: p lies strictly inside the directory rel (any p when rel is the top directory '') *)
+  Definition below (rel p : list N) : Prop := exists s, p = prefix rel ++ s.
+
   Lemma walk_once f : forall X rel ids ed ret log ids' ed' ret' log',
     walk_verify L f w c X rel ids ed ret log = Ok (ids', ed', ret', log') ->
-    rel_ok rel -> ed_wf ed -> NoDup (map fst ed) ->
-    exists new, log' = log ++ new /\ NoDup (map fst new) /\ forall p, In p (map fst new) -> inside rel p /\ visited_path ed' p.
+    key_ok rel -> ed_wf ed -> NoDup (map fst ed) ->
+    exists new, log' = log ++ new /\ NoDup (map fst new) /\ forall p, In p (map fst new) -> below rel p /\ visited_path ed' p.
   Proof.
     induction f as [|f IH]; intros X rel ids ed ret log ids' ed' ret' log' H Hr Hed Hkeys; [discriminate|].
     cbn [walk_verify] in H.
@@ -223,14 +272,18 @@ Section Once.
       NoDup (map fst e0) ->
       (forall x, In x e1 -> In x e0) /\ NoDup (map fst e1) /\
       exists new, l1 = l0 ++ new /\ NoDup (map fst new) /\
-        forall p, In p (map fst new) -> (exists d s, In d ds /\ p = rel ++ sl :: d ++ sl :: s) /\ visited_path e1 p).
+        forall p, In p (map fst new) -> (exists d s, In d ds /\ p = prefix rel ++ d ++ sl :: s) /\ visited_path e1 p).
     { induction ds as [|d ds IHd]; intros i0 e0 r0 l0 i1 e1 r1 l1 Hnds Hv Hwf Hd Hk0.
       - cbn in Hd. inversion Hd; subst. split; [auto|split; [exact Hk0|]]. exists []. rewrite app_nil_r. split; [reflexivity|split; [constructor|intros p []]].
       - cbn [fold_left bind] in Hd. inversion Hnds as [|? ? Hdn Hdsn]; subst.
         destruct (walk_verify L f w c (pjoin X d) (pjoin rel d) i0 e0 r0 l0) as [[[[i2 e2] r2] l2]|] eqn:E.
         2:{ exfalso. rewrite fold_err_stays' in Hd by reflexivity. discriminate. }
         assert (Hvd : valid_name d) by (apply Hv; left; reflexivity).
-        destruct (IH _ _ _ _ _ _ _ _ _ _ E (rel_ok_child rel d Hr Hvd) Hwf Hk0) as [na [-> [A1 A2]]].
+        pose proof (key_ok_child rel d Hr Hvd) as Hrc.
+        destruct (IH _ _ _ _ _ _ _ _ _ _ E (or_intror Hrc) Hwf Hk0) as [na [-> [A1 A2]]].
+        assert (Hbelow : forall p, below (pjoin rel d) p -> exists s, p = prefix rel ++ d ++ sl :: s).
+        { intros p [s ->]. exists s. unfold prefix at 1. destruct (pjoin rel d) eqn:Ej; [destruct Hrc; congruence|]. rewrite <- Ej.
+          rewrite (pjoin_prefix rel d Hr (proj2 Hvd)). rewrite <- !app_assoc. reflexivity. }
         pose proof (walk_ed_shrinks L w c f _ _ _ _ _ _ _ _ _ _ E) as Hsh2.
         assert (Hwf2 : ed_wf e2) by (intros k dd Hin; apply (Hwf k dd); apply Hsh2; exact Hin).
         pose proof (walk_ed_nodup f _ _ _ _ _ _ _ _ _ _ E Hk0) as Hk2.
@@ -238,11 +291,11 @@ Section Once.
         split; [intros x Hx; apply Hsh2, Hsh1, Hx|split; [exact Hk1|]].
         exists (na ++ nb). rewrite app_assoc. split; [reflexivity|]. rewrite map_app. split.
         + apply nodup_app2; [exact A1|exact B1|]. intros p Hpa Hpb.
-          destruct (inside_child rel d p Hr Hvd (proj1 (A2 p Hpa))) as [s1 E1]. destruct (proj1 (B2 p Hpb)) as [d2 [s2 [Hd2 E2]]].
-          rewrite E1 in E2. apply app_inv_head in E2. inversion E2 as [E3].
-          destruct (first_component d d2 s1 s2 (proj2 Hvd) (proj2 (Hv d2 (or_intror Hd2))) E3) as [-> _]. exact (Hdn Hd2).
+          destruct (Hbelow p (proj1 (A2 p Hpa))) as [s1 E1]. destruct (proj1 (B2 p Hpb)) as [d2 [s2 [Hd2 E2]]].
+          rewrite E1 in E2. apply app_inv_head in E2.
+          destruct (first_component d d2 s1 s2 (proj2 Hvd) (proj2 (Hv d2 (or_intror Hd2))) E2) as [-> _]. exact (Hdn Hd2).
         + intros p Hp. apply in_app_or in Hp. destruct Hp as [Hp|Hp].
-          * destruct (inside_child rel d p Hr Hvd (proj1 (A2 p Hp))) as [s E1]. split; [exists d, s; split; [left; reflexivity|exact E1]|].
+          * destruct (Hbelow p (proj1 (A2 p Hp))) as [s E1]. split; [exists d, s; split; [left; reflexivity|exact E1]|].
             eapply visited_path_shrink; [exact Hsh1|apply (A2 p Hp)].
           * destruct (B2 p Hp) as [[d2 [s2 [Hd2 E2]]] V]. split; [exists d2, s2; split; [right; exact Hd2|exact E2]|exact V]. }
     assert (Hwf1 : ed_wf (dict_del rel ed)) by (intros k dd Hin; apply (Hed k dd); eapply in_dict_del_sub; exact Hin).
@@ -254,45 +307,17 @@ Section Once.
     exists (new1 ++ new2). rewrite app_assoc. split; [reflexivity|]. rewrite map_app. split.
     - apply nodup_app2; [exact N1|exact M1|]. intros p Hp1 Hp2.
       apply N2 in Hp1. apply in_map_iff in Hp1. destruct Hp1 as [it [E1 Hit]].
-      rewrite (pjoin_noslash rel (fst it) Hr (Hslash it Hit)) in E1.
-      destruct (proj1 (M2 p Hp2)) as [d [s [Hd E2]]]. rewrite <- E1 in E2. apply app_inv_head in E2. inversion E2 as [E3].
-      apply (Hslash it Hit). rewrite E3. apply in_or_app. right. left. reflexivity.
+      rewrite (pjoin_prefix rel (fst it) Hr (Hslash it Hit)) in E1.
+      destruct (proj1 (M2 p Hp2)) as [d [s [Hd E2]]]. rewrite <- E1 in E2. apply app_inv_head in E2.
+      apply (Hslash it Hit). rewrite E2. apply in_or_app. right. left. reflexivity.
     - intros p Hp. apply in_app_or in Hp. destruct Hp as [Hp|Hp].
       + apply N2 in Hp. apply in_map_iff in Hp. destruct Hp as [it [E1 Hit]].
-        rewrite (pjoin_noslash rel (fst it) Hr (Hslash it Hit)) in E1. split; [exists (fst it); symmetry; exact E1|].
-        exists rel, (fst it). split; [symmetry; exact E1|split; [exact (Hslash it Hit)|exact Hrel_gone]].
+        split; [exists (fst it); rewrite <- E1; apply pjoin_prefix; [exact Hr|exact (Hslash it Hit)]|].
+        exists rel, (fst it). split; [exact Hr|split; [symmetry; exact E1|split; [exact (Hslash it Hit)|exact Hrel_gone]]].
       + destruct (M2 p Hp) as [[d [s [_ E2]]] V]. split; [exists (d ++ sl :: s); exact E2|exact V].
   Qed.
 
   (* ---- the trailing pass and the whole operation ------------------------------------------------------------------ *)
-  Definition key_ok (k : list N) : Prop := k = [] \/ rel_ok k.
-
-  Lemma pjoin_key k n : key_ok k -> ~ In sl n -> pjoin k n = match k with [] => n | _ => k ++ sl :: n end.
-  Proof.
-    intros [->|Hk] Hn.
-    - unfold pjoin. destruct n as [|x r]; [reflexivity|].
-      assert (x =? sl = false) as -> by (apply N.eqb_neq; intros ->; apply Hn; left; reflexivity). reflexivity.
-    - rewrite (pjoin_noslash k n Hk Hn). destruct k; [destruct Hk; congruence|reflexivity].
-  Qed.
-
-  Lemma last_component r1 n1 r2 n2 : ~ In sl n1 -> ~ In sl n2 -> r1 ++ sl :: n1 = r2 ++ sl :: n2 -> r1 = r2 /\ n1 = n2.
-  Proof.
-    intros H1 H2 E. apply (f_equal (@rev N)) in E. rewrite !rev_app_distr in E. cbn [rev] in E. rewrite <- !app_assoc in E. cbn [app] in E.
-    destruct (first_component (rev n1) (rev n2) (rev r1) (rev r2)) as [E1 E2]; [intros H; apply H1; apply in_rev; exact H|intros H; apply H2; apply in_rev; exact H|exact E|].
-    apply (f_equal (@rev N)) in E1, E2. rewrite !rev_involutive in E1, E2. split; assumption.
-  Qed.
-
-  Lemma pjoin_key_inj k1 n1 k2 n2 : key_ok k1 -> key_ok k2 -> ~ In sl n1 -> ~ In sl n2 ->
-    pjoin k1 n1 = pjoin k2 n2 -> k1 = k2 /\ n1 = n2.
-  Proof.
-    intros K1 K2 H1 H2. rewrite (pjoin_key k1 n1 K1 H1), (pjoin_key k2 n2 K2 H2).
-    destruct k1 as [|a1 k1], k2 as [|a2 k2].
-    - intros ->. split; reflexivity.
-    - intros ->. exfalso. apply H1. apply in_or_app. right. left. reflexivity.
-    - intros <-. exfalso. apply H2. apply in_or_app. right. left. reflexivity.
-    - intros E. apply last_component; assumption.
-  Qed.
-
   (* a sequence of single checks: what the log gains has the relative paths of the steps, each at most once *)
   Definition step := (list N * list N * option entry)%type.
   Definition run_steps (steps : list step) (start : res (bool * list call)) : res (bool * list call) :=
@@ -376,7 +401,7 @@ Qed.
 
 (* the whole operation: no path is handed to the handler twice *)
 Theorem no_path_reported_twice (L : hashlib) decompress pgp_verify w l path pol lm l' b log :
-  wf_world w -> nodup_world w -> rel_ok path ->
+  wf_world w -> nodup_world w -> key_ok path ->
   (forall l1 ed, get_file_entry_dict L decompress pgp_verify w l path None true = Ok (l1, ed) ->
      NoDup (map fst ed) /\ forall k dd, In (k, dd) ed -> key_ok k /\ dd_wf dd) ->
   assert_directory_verifies L decompress pgp_verify w l path pol lm = Ok (l', b, log) ->
@@ -396,11 +421,9 @@ Proof.
   assert (Hwf' : forall k dd, In (k, dd) ed' -> key_ok k /\ dd_wf dd) by (intros k dd Hin; apply Hwf; apply Hsh; exact Hin).
   destruct (run_steps_once L w c _ _ _ _ _ E9 (trailing_paths_nodup ed' Hk' Hwf')) as [new2 [-> [M1 M2]]].
   rewrite map_app. apply nodup_app2; [exact N1|exact M1|].
-  intros p Hp1 Hp2. destruct (proj2 (N2 p Hp1)) as [r [n [Ep [Hn Hr]]]].
+  intros p Hp1 Hp2. destruct (proj2 (N2 p Hp1)) as [r [n [Kr [Ep [Hn Hr]]]]].
   apply M2 in Hp2. apply in_map_iff in Hp2. destruct Hp2 as [st [E2 Hin2]]. unfold trailing_steps in Hin2. apply in_flat_map in Hin2.
   destruct Hin2 as [[k2 dd2] [Hk2 Hin2]]. apply in_map_iff in Hin2. destruct Hin2 as [[n2 e2] [E3 Hin2]]. subst st. cbn [fst snd] in E2.
-  destruct (Hwf' k2 dd2 Hk2) as [Kk2 [_ Ds2]]. rewrite (pjoin_key k2 n2 Kk2 (Ds2 n2 e2 Hin2)) in E2. rewrite Ep in E2.
-  destruct k2 as [|a2 k2].
-  - apply (Ds2 n2 e2 Hin2). rewrite E2. apply in_or_app. right. left. reflexivity.
-  - destruct (last_component _ _ _ _ (Ds2 n2 e2 Hin2) Hn E2) as [E4 _]. rewrite <- E4 in Hr. apply Hr. apply in_map_iff. exists (a2 :: k2, dd2). split; [reflexivity|exact Hk2].
+  destruct (Hwf' k2 dd2 Hk2) as [Kk2 [_ Ds2]]. rewrite Ep in E2.
+  destruct (pjoin_key_inj k2 n2 r n Kk2 Kr (Ds2 n2 e2 Hin2) Hn E2) as [E4 _]. apply Hr. rewrite <- E4. apply in_map_iff. exists (k2, dd2). split; [reflexivity|exact Hk2].
 Qed.
